@@ -230,6 +230,11 @@ func analyse(root, tier string) *Result {
 	p := Load(root, false, true)
 	debugDump(p)
 	c := newCtx(p)
+	if os.Getenv("CLUSTERLINT_LOCKTABLE") != "" {
+		for _, l := range c.buildLockWorld().inferGuards() {
+			fmt.Println(l)
+		}
+	}
 	res := &Result{Tier: tier, Repo: root, Packages: len(p.Repo), AllPkgs: len(p.All), RepoFuncs: p.NumFuncs,
 		DepErrors: p.DepErrs, Timings: p.Timings, Controls: ctl}
 	if p.CG != nil {
